@@ -194,7 +194,14 @@ impl SurfaceIntentions {
         match boundary {
             | LayoutBoundary::Between { before, after } => {
                 let before_extent = self.line_extent(before)?;
-                let after_start = self.presentation_start(after)?;
+                // An existential parameter starts at its own delimiter, not at its binder.
+                let parameter_start = match after {
+                    | EntityId::Pat(parameter) => {
+                        self.existential_parameter_starts.get(&parameter).copied()
+                    }
+                    | _ => None,
+                };
+                let after_start = parameter_start.or_else(|| self.presentation_start(after))?;
                 Some(self.break_intent(before, before_extent.last, after, after_start))
             }
             | LayoutBoundary::AfterStart { enclosing, first } => {
